@@ -532,6 +532,7 @@ class client( object ):
         if getattr( self, 'conn', None ) is not None:
             self.conn.close()
             self.conn	= None
+        self.engine		= None # A closed connection has no response frame in progress
 
     def __del__( self ):
         """Avoid invoking superclass .close, if we've already completed closing"""
